@@ -415,11 +415,18 @@ fn run_case(out: &mut Out, tmp: &str, id: u64, pr: &Probe, seal: bool, no_open: 
                 let h = if r.chance(1, 2) { "-".to_string() } else { k.to_string() };
                 format!("sa:{}:{}:{}:{}", f, h, v, *r.pick(&[0u64, fsz, fsz + 1, fsz.saturating_sub(1), 1 << 20]))
             } else if x < 95 {
-                let mode = match r.below(4) { 0 => (theme * 2 + j) % 256, 1 => r.below(256), _ => *r.pick(&MODES) };
-                let off = *r.pick(&offs);
-                let room = fsz.saturating_sub(off.min(fsz));
-                let len = *r.pick(&[0u64, 1, 4096, room, room, room + 1, 1u64 << 63, u64::MAX, 512, room / 2]);
-                format!("fa:{}:{}:{}:{}:{}", f, k, mode, off, len)
+                if fsz > 0 && r.chance(2, 5) {
+                    // a request inside the file with a mode the seal check lets through
+                    let off = r.below(fsz);
+                    let len = 1 + r.below(fsz - off);
+                    format!("fa:{}:{}:{}:{}:{}", f, k, *r.pick(&[0u64, 1, 3, 16, 17, 2, 64, 65]), off, len)
+                } else {
+                    let mode = match r.below(4) { 0 => (theme * 2 + j) % 256, 1 => r.below(256), _ => *r.pick(&MODES) };
+                    let off = *r.pick(&offs);
+                    let room = fsz.saturating_sub(off.min(fsz));
+                    let len = *r.pick(&[0u64, 1, 4096, room, room, room + 1, 1u64 << 63, u64::MAX, 512, room / 2]);
+                    format!("fa:{}:{}:{}:{}:{}", f, k, mode, off, len)
+                }
             } else {
                 format!("rl:{}:{}", f, k)
             };
